@@ -301,8 +301,10 @@ func (c *celValidator) convertOperator(function string, args []*exprpb.Expr, fie
 		return ""
 	}
 
-	left := c.convertASTToGo(args[0], fieldName)
-	right := c.convertASTToGo(args[1], fieldName)
+	// Operands are glued together as text, so an operand whose own operator binds
+	// less tightly than this one (or equally, on the right) needs parentheses.
+	left := c.convertOperand(function, args[0], fieldName, false)
+	right := c.convertOperand(function, args[1], fieldName, true)
 
 	// Try logical operators first
 	if result := c.convertLogicalOperator(function, left, right); result != "" {
@@ -316,6 +318,44 @@ func (c *celValidator) convertOperator(function string, args []*exprpb.Expr, fie
 
 	// Try arithmetic operators
 	return c.convertArithmeticOperator(function, left, right)
+}
+
+// goPrecedence returns the Go precedence of the operator a CEL call is rendered
+// with, or 0 when the rendering is not a bare binary expression.
+func goPrecedence(function string) int {
+	switch function {
+	case "_*_", "_/_", "_%_":
+		return 5
+	case "_+_", "_-_":
+		return 4
+	case "_>_", "_>=_", "_<_", "_<=_", "_==_", "_!=_", ternaryOperator:
+		return 3
+	default:
+		return 0
+	}
+}
+
+// convertOperand converts an operand of an arithmetic or comparison operator and
+// parenthesizes it when Go would otherwise regroup the expression.
+func (c *celValidator) convertOperand(parent string, arg *exprpb.Expr, fieldName string, rightSide bool) string {
+	converted := c.convertASTToGo(arg, fieldName)
+
+	parentPrec := goPrecedence(parent)
+	if parentPrec == 0 || parent == ternaryOperator {
+		return converted
+	}
+
+	call := arg.GetCallExpr()
+	if call == nil || call.Target != nil {
+		return converted
+	}
+
+	prec := goPrecedence(call.Function)
+	if prec != 0 && (prec < parentPrec || (rightSide && prec == parentPrec)) {
+		return "(" + converted + ")"
+	}
+
+	return converted
 }
 
 func (c *celValidator) convertTernaryOperator(args []*exprpb.Expr, fieldName string) string {
